@@ -482,7 +482,7 @@ static void mode_reneg(Tape &t)
 		for (int d = 0; d < 2; d++) VF_CHECK(S.recvd[d] == S.sent[d] && S.script[d].empty(), "%s: no error anywhere, but %s's data stalled (%zu of %zu delivered, %zu script items left; states %#x/%#x)",
 			d2.c_str(), d ? "server" : "client", S.recvd[d], S.sent[d], S.script[d].size(), e[0]->state(), e[1]->state());
 		stats.cls("reneg:all-data-delivered");
-	} else stats.cls("reneg:ended-in-error(documented: data during renegotiation is refused)");
+	} else stats.cls("reneg:ended-in-error(data crossing a renegotiation is refused: listed finding, see the probe)");
 	stats.cls(fmt("reneg:key-changes=%d", epochs));
 	stats.eval((app_mid[0] || app_mid[1] || accepted) ? fmt("reneg/%04x/%u/%d%d/%u/%u/%d/%d", W.si->id, W.version, W.cp.layout, W.sp.layout, fl & 7, nev, accepted, epochs) : std::string());
 	if (stats.want_sample()) stats.sample(d2 + fmt(" => %d key changes, errors %d/%d, delivered %zu/%zu of %zu/%zu", epochs, e[0]->error(), e[1]->error(), S.recvd[0], S.recvd[1], S.sent[0], S.sent[1]));
@@ -679,11 +679,54 @@ static void probe_declined_hello_request_then_data()
 		finding("declined-hello-request-then-data", fmt("a client declining a HelloRequest while one of its own records is only partly sent treats the server's next application data record as unexpected (error %d) instead of delivering it", c.error()));
 	else VF_CHECK(got == 40, "probe: %zu of 40 bytes delivered after the declined HelloRequest", got);
 }
+// Probe: application data that is already on its way when the other side starts a renegotiation
+// (the requester cannot know; nothing is buffered locally, renegotiate() returns 1).  The property:
+// renegotiation "at any point of the data stream ... in all cases the application byte streams in
+// both directions remain intact and ordered".
+static void probe_data_crossing_renegotiation()
+{
+	for (int who = 0; who < 2; who++) {      // who starts the renegotiation
+		Profile cp, sp;
+		cp.suites = { 0x009C }; sp.suites = { 0x009C };
+		cp.layout = sp.layout = L_SPLIT;
+		BearClient c(cp);
+		BearServer s(sp);
+		VF_CHECK(c.reset() && s.reset(), "probe: reset");
+		Session S(&c, &s);
+		S.run(100000);
+		VF_CHECK(S.established, "probe: handshake");
+		BearEndpoint *req = who ? (BearEndpoint *)&s : (BearEndpoint *)&c, *peer = who ? (BearEndpoint *)&c : (BearEndpoint *)&s;
+		Bytes five = { 'h', 'e', 'l', 'l', 'o' };
+		peer->app_out(five.data(), 5);
+		peer->flush(false);
+		const uint8_t *p;
+		size_t n = peer->wire_out_peek(&p);
+		VF_CHECK(n > 5, "probe: no record");
+		Bytes inflight(p, p + n);
+		peer->wire_out_ack(n);                       // the record has left the peer, the transport holds it
+		bool r = req->renegotiate();
+		VF_CHECK(r, "probe: renegotiate() refused");
+		size_t off = 0, got = 0;
+		for (int g = 0; g < 100 && off < inflight.size() && !req->closed(); g++) {
+			size_t room = req->wire_in_room();
+			if (!room) { size_t k = req->wire_out_peek(&p); if (k) req->wire_out_ack(k); else break; continue; }
+			size_t k = std::min(room, inflight.size() - off);
+			req->wire_in(inflight.data() + off, k);
+			off += k;
+		}
+		while ((n = req->app_in_peek(&p)) > 0) { got += n; req->app_in_ack(n); }
+		if (req->closed() && req->error() == BR_ERR_UNEXPECTED && got == 0)
+			finding("data-crossing-renegotiation-request-refused", fmt("application data already in flight when the other side calls br_ssl_engine_renegotiate() (accepted: returns 1, nothing buffered locally): the requester "
+				"clears application_data at once and fails with BR_ERR_UNEXPECTED when the record arrives; the 5 bytes are lost and no alert is sent (%s requested; the same happens to a client that receives "
+				"a HelloRequest followed by data, as an OpenSSL server sends them)", who ? "server" : "client"));
+		else VF_CHECK(got == 5 && !req->closed(), "probe: data crossing a renegotiation request: %zu of 5 bytes delivered, requester %s with error %d", got, req->closed() ? "closed" : "open", req->error());
+	}
+}
 static bool probes_done = false;
 
 void target_run(Tape &t)
 {
-	if (!probes_done) { probes_done = true; probe_f11(); probe_reneg_without_binding(); probe_simultaneous_reneg(); probe_warning_while_closing(); probe_declined_hello_request_then_data(); }
+	if (!probes_done) { probes_done = true; probe_f11(); probe_reneg_without_binding(); probe_simultaneous_reneg(); probe_warning_while_closing(); probe_declined_hello_request_then_data(); probe_data_crossing_renegotiation(); }
 	unsigned m = t.u8() % 8;
 	if (m < 2) mode_close(t);
 	else if (m < 4) mode_cut(t);
